@@ -736,14 +736,104 @@ def scope_guards(compound):
     return out
 
 
+# ----------------------------------------------------------------------------- value locals / loop exits
+
+def is_const_local(t):
+    """The declared type makes the variable itself immutable (`const T`, `T *const`), references excluded."""
+    t = (t or "").strip()
+    if "&" in t:
+        return False
+    if "*" in t:
+        return bool(re.search(r"\*\s*const$", t))
+    return t.startswith("const ") or t.endswith(" const")
+
+
+def value_locals(fn_node):
+    """{VarDecl id: (VarDecl, init expr)} of the locals of a function that hold one value for their whole life:
+    declared with an initialiser, not static, not a reference, and never written, incremented, bound to a reference or
+    address-taken afterwards (every mention is an rvalue read, or the variable is const).  Whether the *initialiser* still
+    denotes the same value at a later point is the caller's business (it depends on what the rule tracks)."""
+    par = {}
+    for x in walk(fn_node):
+        for c in cir.kids(x):
+            if c:
+                par[id(c)] = x
+        if x.get("k") == "LambdaExpr":
+            b = lambda_body(x)
+            if b is not None:
+                par[id(b)] = x
+    cand = {}
+    for x in walk(fn_node):
+        if x.get("k") != "VarDecl" or not x.get("init") or x.get("storageClass") == "static":
+            continue
+        t = x.get("t") or ""
+        if "&" in t or "[" in t:
+            continue
+        init = [c for c in cir.kids(x) if c is not None and not c.get("k", "").endswith("Attr")]
+        if len(init) != 1:
+            continue
+        cand[x.get("id")] = (x, init[0])
+    for x in walk(fn_node):
+        if x.get("k") != "DeclRefExpr":
+            continue
+        rid = (x.get("ref") or {}).get("id")
+        if rid not in cand or is_const_local(cand[rid][0].get("t")):
+            continue
+        p = par.get(id(x))
+        while p is not None and p.get("k") == "ParenExpr":
+            p = par.get(id(p))
+        if p is None or p.get("k") != "ImplicitCastExpr" or p.get("ck") != "LValueToRValue":
+            del cand[rid]
+    return cand
+
+
+def loop_parts(lp):
+    """(condition or None, body) of a while / for / do loop."""
+    c = list(cir.kids(lp))
+    k = lp.get("k")
+    if k == "DoStmt":
+        return c[1], c[0]
+    if k == "ForStmt":
+        c += [None] * 5
+        return c[2], c[4]
+    if k == "WhileStmt":
+        return c[0], c[-1]
+    return None, None
+
+
+def loop_exit_conds(lp):
+    """Every condition that decides whether the loop goes on: the loop condition itself and the conditions of the
+    `if (g) break;` / `if (g) return ..;` / `if (g) {..} else break;` statements placed directly in the loop body
+    (`while (c) S`, `for (;;) { if (!c) break; S }` and `do { S; if (!c) break; } while (true)` exit on the same test)."""
+    cond, body = loop_parts(lp)
+    out = [cond] if cond is not None else []
+    sts = cir.kids(body) if body is not None and body.get("k") == "CompoundStmt" else [body]
+    for st in sts:
+        if st is None or st.get("k") != "IfStmt" or st.get("hasInit") or st.get("hasVar"):
+            continue
+        c = list(cir.kids(st))
+        for arm in c[1:3]:
+            a = arm
+            while a is not None and a.get("k") == "CompoundStmt" and len([y for y in cir.kids(a) if y]) == 1:
+                a = [y for y in cir.kids(a) if y][0]
+            if a is not None and a.get("k") in ("BreakStmt", "ReturnStmt"):
+                out.append(c[0])
+                break
+    return out
+
+
 # ----------------------------------------------------------------------------- linear forms
 
-def linear(n, leaf):
-    """Flatten an expression over + and - into {term: coefficient}.  `leaf(expr) -> term`."""
+def linear(n, leaf, resolve=None):
+    """Flatten an expression over + and - into {term: coefficient}.  `leaf(expr) -> term`.
+    `resolve(expr) -> expr` (optional) is applied to every operand first: a rule passes the function that replaces
+    a value local by its defining expression, so that a hoisted sub-expression and the spelled-out one give one form."""
     out = {}
 
     def go(x, sign):
         x = cir.strip(x)
+        if resolve is not None:
+            x = cir.strip(resolve(x))
         if x is not None and x.get("k") == "BinaryOperator" and x.get("op") in ("+", "-"):
             a, b = cir.kids(x)
             go(a, sign)
